@@ -13,6 +13,11 @@
 (*   - get(): bound -> answer; else import what the reference discovers    *)
 (*     (the qualified name's module; <search package>.<alias> for banks    *)
 (*     that own a search path, i.e. the root's) and look again.            *)
+(*   - Path.load() of a module path that is not (entirely) installed: the  *)
+(*     import error names the first absent prefix of the path; it is       *)
+(*     swallowed when that name is a prefix of the path (always, for a     *)
+(*     miss caused by the path itself), turned into the missing-provider   *)
+(*     error for an explicit search path, and would escape otherwise.      *)
 (* Invariants: the as-is answers are the requirement's answers.            *)
 (***************************************************************************)
 EXTENDS Bank
@@ -50,6 +55,25 @@ IGet(via, r) ==
              banks == IAddAll(ib, ClassesOf(new))
          IN [res |-> One(Bound(banks, via, r)), banks |-> banks, mods |-> imod \cup new]
 
+\* ---- as-is loading of paths that are not installed (shapes of Bank!Shapes; <<s, e>> with e < s: absent) ----
+\* the import error carries the first e + 1 segments; as-is filter: path.startswith(that name)
+ErrLen(sh) == sh[2] + 1
+Swallowed(sh) == ErrLen(sh) <= sh[1]
+ILoad(sh, explicit) == IF sh[2] >= sh[1] THEN "loaded"
+                       ELSE IF ~Swallowed(sh) THEN "escape"
+                       ELSE IF explicit THEN "missing" ELSE "skipped"
+ShapeOf(r) == IF r[1] = 3 THEN <<r[2] \div 100, (r[2] % 100) \div 10>> ELSE <<r[2] \div 10, r[2] % 10>>
+\* the search paths of the bank of `via` (the root's: its search package, installed, and the ghost gh)
+IPaths(via, gh) == IF via # 0 THEN {} ELSE {<<1, 1>>} \cup (IF gh = NoGhost THEN {} ELSE {gh})
+\* below a search path of shape b an alias of shape a: everything under an absent package is absent
+Below(b, a) == <<b[1] + a[1], IF b[2] < b[1] THEN b[2] ELSE b[2] + a[2]>>
+\* the candidate paths get() tries for a reference nobody provides (not explicit), then every search path (explicit)
+ICandidates(via, r, gh) == IF r[1] = 3 THEN {ShapeOf(r)} ELSE {Below(b, ShapeOf(r)) : b \in IPaths(via, gh)}
+\* as-is answer for r \in URefs: 0 = the missing-provider error (nothing found, or an explicit path not installed),
+\* -1 = another exception escapes
+IGetUnknown(via, r, gh) == IF \/ \E p \in ICandidates(via, r, gh) : ILoad(p, FALSE) = "escape"
+                              \/ \E p \in IPaths(via, gh) : ILoad(p, TRUE) = "escape" THEN -1 ELSE 0
+
 IInit == Init /\ ib = [b \in 0..N |-> {}] /\ iacc = {} /\ imod = {}
 IRegister(c) == /\ Register(c)
                 /\ ib' = IAdd(ib, c).banks
@@ -78,6 +102,12 @@ ImplWithin == UseModules => /\ imp \subseteq imod
                             /\ \A v \in Vias, r \in Refs :
                                  LET g == IGet(v, r).res
                                  IN IF Must(v, r) # 0 THEN g = Must(v, r) ELSE g \in {0, Whole(v, r)}
+\* references nobody provides are answered with the missing-provider error whatever their shape / the ghost path
+\* (nothing is bound under such a reference and nothing is discovered by it: IGet leaves the banks alone)
+ImplUnknown == \A v \in Vias, r \in URefs : Bound(ib, v, r) = {} /\ Discovers(v, r) = 0
+\* ... so that the answer is IGetUnknown, which depends on the shapes only (the root owns search paths, the other
+\* interfaces do not): no shape of reference and no uninstalled search path makes another exception escape
+ASSUME \A gh \in GhostsAll, r \in URefsOf(0..9), via \in {0, 1} : IGetUnknown(via, r, gh) = 0
 \* whatever the order, the banks are a function of the set of executed class statements (collision-free sets)
 ImplOrderFree ==
     (\A c, d \in Tried : (Legal(c) /\ Legal(d) /\ u.cls[c].al # 0 /\ u.cls[c].al = u.cls[d].al) => c = d)
